@@ -68,7 +68,8 @@ class Check:
             self.samples.append(s)
 
     def nontriv(self, key) -> None:
-        self.nontrivial.add(key if isinstance(key, (str, int, tuple)) else digest(key))
+        # stored as a 64-bit hash: the thorough tiers register millions of keys
+        self.nontrivial.add(hash(key) if isinstance(key, (str, int, tuple)) else digest(key))
 
     # ---- verdicts ----
     def known_finding(self, fid: str, example=None) -> None:
